@@ -1,7 +1,7 @@
 (* C11  Orientation counters stay consistent; orientation divisors obey K identities. *)
 From Coq Require Import ZArith List Bool.
 Import ListNotations.
-From CF Require Import ZSum ListAux Defs Reduced Core Machines OrientLink OrientRound.
+From CF Require Import ZSum ListAux Defs Reduced Core Machines OrientLink OrientRound PyDict ImpRep TranslatedImpCFOrientation ImpLinkOrient.
 Open Scope Z_scope.
 
 (* The invariant oinv: in/out counters equal the recount over edges currently pointing in/out, the two endpoint entries of every edge are
@@ -77,6 +77,26 @@ Print Assumptions C11_acyclic_unwinnable.
 Theorem C11_acyclic_unwinnable_abstract : forall V m, (forall v w, 0 <= m v w) -> forall pos : nat -> nat, V <> [] -> ~ winnable V m (orient_div V m pos).
 Proof. exact acyclic_unwinnable. Qed.
 Print Assumptions C11_acyclic_unwinnable_abstract.
+
+(* ---- tie to the source text: CFOrientation.set_orientation as translated from /repo's CURRENT source by tools/translate_imp.py
+   (TranslatedImpCFOrientation.v; the members of OrientationState are the integers the source gives them, 0 / 1 / 2). On dictionaries representing an
+   orientation state that satisfies the invariant - rep_ostate: the orientation table holds dir for every edge in both directions, the two counter
+   tables hold inc / outc, the two flags are equal - it ends with a KeyError and UNTOUCHED dictionaries exactly when the model refuses (unknown endpoint,
+   no edge), and otherwise all five fields represent the model's next state, for each of the three states and whatever the edge's old state was ---- *)
+Theorem C11_source_set_orientation : forall g, wfb g = true -> forall gg, rep_graph gg g -> forall oo outd ind isf isfc s a b st,
+  oinv g s -> rep_ostate g oo outd ind isf isfc s -> (st = 0 \/ st = 1 \/ st = 2) ->
+  match CFOrientation_set_orientation oo gg outd ind isf isfc a b st with
+  | PyExn e => set_orientation g s a b st = Err /\ e = (outd, ind, oo, isf, isfc)
+  | PyOk (outd', ind', oo', isf', isfc') => exists s', set_orientation g s a b st = Ok s' /\ rep_ostate g oo' outd' ind' isf' isfc' s' end.
+Proof. exact set_orientation_refines. Qed.
+Print Assumptions C11_source_set_orientation.
+Example C11_source_nonvacuous : let g := [[0;2;1];[2;0;1];[1;1;0]] in
+  let oo := [(0%nat, [(1%nat, 0); (2%nat, 0)]); (1%nat, [(0%nat, 0); (2%nat, 0)]); (2%nat, [(0%nat, 0); (1%nat, 0)])] in
+  match CFOrientation_set_orientation oo (dict_of_graph g) (dict_of_div [0;0;0]) (dict_of_div [0;0;0]) false false 1%nat 0%nat 1 with
+  | PyOk (outd, ind, oo', isf, isfc) => d_find 1%nat outd = Some 2 /\ d_find 0%nat ind = Some 2 /\ (match d_find 0%nat oo' with Some r => d_find 1%nat r | None => None end) = Some 2
+  | PyExn _ => False end /\
+  CFOrientation_set_orientation oo (dict_of_graph g) (dict_of_div [0;0;0]) (dict_of_div [0;0;0]) false false 1%nat 1%nat 1 = PyExn (dict_of_div [0;0;0], dict_of_div [0;0;0], oo, false, false).
+Proof. vm_compute. repeat split. Qed.
 
 Example C11_nonvacuous : let g := [[0;2;1];[2;0;1];[1;1;0]] in
   match oconstruct g [(0,1);(2,1)]%nat with Ok s =>
